@@ -414,6 +414,10 @@ pub struct LetDef {
 pub struct Surface {
     /// use newlines between transforms instead of ` | `
     pub newlines: bool,
+    /// parenthesise an operand of the same precedence level also on the side where the documented
+    /// associativity makes it redundant: `(a - b) - c`, `(a ?? b) ?? c`
+    #[serde(default)]
+    pub redundant_parens: bool,
 }
 
 #[derive(Clone, Debug, Serialize, Deserialize)]
